@@ -62,7 +62,11 @@ def e2e(case):
                     viols.append(("e2e.load-set", f"{b.name}, increment {i_}: load after set_load_and_cost is {b.pload}, the profiles give {st['p0'][b.name][0]}"))
             st["trafo_before"] = {b.name: b.trafo_failed for b in ps.buses}
         elif phase == "before_log":
-            dt = (info["curr"] - info["prev"]).get_hours()
+            # the length of the increment is the step the run was asked for (not what the simulator's own clock says)
+            dt = dt_h
+            dt_impl = (info["curr"] - info["prev"]).get_hours() if info["prev"] is not None else info["curr"].get_hours()
+            if abs(dt_impl - dt_h) > 1e-9 * max(1.0, dt_h):
+                viols.append(("e2e.step-length", f"increment ending at t={info['curr'].get_hours()} h: the simulator's clock advanced by {dt_impl} h, the step is {dt_h} h"))
             st["stacks"] = {}
             for b in ps.buses:
                 p0, q0 = st["p0"].get(b.name, (0, 0))
